@@ -7,6 +7,8 @@ for d in seeded/*/; do
   out=$(lib/seed_run.sh /verif/$d/patch.diff $prop 2>&1)
   v=$(echo "$out" | grep -E "^(OK|VIOLATION)" | head -1 | cut -c1-90)
   k=$(echo "$out" | grep -E "^  failing-input" | head -1 | sed 's/^  failing-input\[\([^]]*\)\].*/\1/')
-  echo "$id | $prop | $v | first-failing-kind=${k:--}"
+  pr=intact; echo "$out" | grep -q "^  broken\[proof\]" && pr=broken
+  co=intact; echo "$out" | grep -q "^  broken\[correspondence\]" && co=broken
+  echo "$id | $prop | $v | first-failing-kind=${k:--} | proof=$pr | correspondence=$co"
 done
 git -C /repo status --short | head -3
